@@ -604,6 +604,26 @@ class Recorder:
         out["cur_unchanged"] = bool(cur == sha(env.current_state.tensor))
         return self.emit(out)
 
+    def fork(self, eid, new_eid):
+        """copy.deepcopy of an environment in the middle of an episode (what a planner does to look ahead with the real
+        step()): the copy is recorded as a new environment that continues the parent's episode"""
+        import copy
+        env = self.envs[eid]
+        try:
+            env2 = copy.deepcopy(env)
+        except Exception as exc:   # noqa
+            return self.raised(eid, "copy.deepcopy", exc, "C19", "copy_of_an_environment_has_the_same_state")
+        self.envs[new_eid] = env2
+        if eid in self.inv:
+            self.inv[new_eid] = dict(self.inv[eid])
+        t, t2 = env.current_state.tensor, env2.current_state.tensor
+        self.last_post[new_eid] = t2.copy()
+        return self.emit(dict(ev="fork", env=new_eid, of=eid, steps=int(env2.steps),
+                              same_tensor=bool(t.shape == t2.shape and np.array_equal(t, t2)),
+                              same_last_obs=bool(np.array_equal(np.asarray(env.last_obs.numpy()),
+                                                                np.asarray(env2.last_obs.numpy()))),
+                              shares_memory=bool(np.shares_memory(t, t2))))
+
     def sample_step(self, eid, u):
         """step with whatever the action space's own sampler returns"""
         env = self.envs[eid]
